@@ -7,10 +7,10 @@ from sa.calls import Resolver
 from sa.core import AnalysisError, Repo, Report, call_name, kwarg, parent, unparse, walk_no_nested
 from sa.selftest import Edit, Variant
 
-from sa.texts import T as _T
+from sa.texts import T as _TX
 
-EXPLANATION = _T["C14"]["explanation"] + " Not decided: " + _T["C14"]["not_decided"] + "."
-ASSUMPTIONS = _T["C14"]["assumptions"]
+EXPLANATION = _TX["C14"]["explanation"] + " Not decided: " + _TX["C14"]["not_decided"] + "."
+ASSUMPTIONS = _TX["C14"]["assumptions"]
 P = "C14"
 REMOVERS = ["remove_nonsvg_content", "remove_processing_instructions", "remove_anonymous_symbols", "remove_title_meta_desc"]
 READERS = ["apply_style_attributes", "resolve_nested_svgs", "shapes_to_paths", "expand_shorthand", "resolve_use", "simplify"]
